@@ -34,7 +34,7 @@ SUPPLIERS = ["float", "zero_d", "npscalar", "pchip", "const", "reduce", "branchi
 def plan(tier, seed):
     n = 10000 if tier == "quick" else 600000
     return [{"kind": "random", "start": p * (n // NSHARDS), "count": n // NSHARDS} for p in range(NSHARDS)] + \
-        [{"kind": "suite"}]
+        [{"kind": "huge", "start": 4 * p, "count": 4} for p in range(2 if tier == "quick" else 8)] + [{"kind": "suite"}]
 
 
 def supplier(kind):
@@ -94,8 +94,12 @@ def run_case(ctx, kind_, idx):
     cid = ctx.case_id(kind_, idx)
     Slot.case = cid
     strat = (R.ALL + ["FunctionRFA"])[int(rng.integers(0, 7))]
-    x, y, meta = R.gen_series(rng, 2, 60, ties_share=0.25, long_share=R.LONG_SHARE)
+    x, y, meta = R.gen_series(rng, 2, 60, ties_share=0.25, long_share=R.LONG_SHARE,
+                              force_m=int(rng.integers(66000, 90001)) if kind_ == "huge" else None)
     n = R.gen_n(rng)
+    if kind_ == "huge":           # a day of per-second averages, smallest factors, every strategy in turn
+        n = int(rng.choice([2, 3]))
+        strat = (R.ALL + ["FunctionRFA"])[idx % 7]
     kw, _a = R.gen_params(rng, strat if strat != "FunctionRFA" else "CubicSplineRFA", n)
     klass = None
     if strat == "FunctionRFA":
